@@ -131,6 +131,10 @@ def prop_cross(case, ctx):
                       "info['e_vld'] seen by the callback is not the validation error of the tensor it was given", sweep=s_, got=icb["e_vld"], ref=ref)
         else:
             ctx.check(icb["e_vld"] == -1, "info['e_vld'] seen by the callback should be -1 without validation data", got=icb["e_vld"])
+    # the tensor of "the previous sweep" before the first sweep is the initial approximation itself (the pre-iteration only re-parametrises it)
+    F0 = dense(Y0)
+    ctx.check(fro(dense(seen[0][0]) - F0) <= 1e-8 * max(fro(F0), 1e-300), "Yold handed to the first callback does not denote the initial tensor",
+              rel=fro(dense(seen[0][0]) - F0) / max(fro(F0), 1e-300))
     Yold_last, Ycb_last, _ = seen[-1]
     ctx.check(all(np.array_equal(a, b) for a, b in zip(Ycb_last, Yp)), "tensor seen by the last callback differs from the returned one")
     iv = oracle.accuracy_interval(Yp, Yold_last)
@@ -250,6 +254,10 @@ def prop_stops(case, ctx):
             ctx.check(info["e_vld"] < kw["e_vld"], "stopped on the validation threshold with a larger reported error", got=info["e_vld"], thr=kw.get("e_vld"))
     if case["stop"] == "nswp0":
         ctx.check(info["stop"] == "nswp" and info["nswp"] == 0, "nswp=0 did not end with stop='nswp' after zero sweeps", stop=info["stop"], nswp=info["nswp"])
+        # zero sweeps: only the pre-iteration ran, which re-parametrises the initial tensor (exactly, also when ranks shrink)
+        F0 = dense(Y0)
+        ctx.check(fro(dense(Y) - F0) <= 1e-8 * max(fro(F0), 1e-300), "cross(nswp=0) does not return the initial tensor",
+                  rel=fro(dense(Y) - F0) / max(fro(F0), 1e-300), ranks0=oracle.ranks_of(Y0), ranks=oracle.ranks_of(Y))
     if case["stop"] == "nswp":
         ctx.check(info["stop"] == "nswp" and info["nswp"] == case["nswp"], "did not run the requested number of sweeps", stop=info["stop"], nswp=info["nswp"])
 
